@@ -469,7 +469,7 @@ def run(ctx):
         COVREL[k_] = 0 if isinstance(COVREL[k_], int) else 0.0
     import os
     only = os.environ.get("C15_ONLY")     # development aid: run a single part (never set by ./check itself)
-    from harness.props.c15_gauss import run_gauss, run_loop
+    from harness.props.c15_gauss import run_gauss, run_loop, run_calls
     parts = [("direct", run_direct), ("routes", run_routes), ("opt", run_opt), ("ml_full", run_ml_full), ("starts", run_starts),
              ("opt_scale", run_opt_scale), ("histories", run_histories), ("threshold", run_threshold)]
     for nm, fn in parts:
@@ -479,6 +479,8 @@ def run(ctx):
         run_gauss(ctx, cuqi, np.random.RandomState(ctx.seed * 7919 + 1503), thorough, oracle_point)
     if only is None or "loop" in only.split(","):
         run_loop(ctx, cuqi, np.random.RandomState(ctx.seed * 7919 + 1504), thorough)
+    if only is None or "calls" in only.split(","):
+        run_calls(ctx, cuqi, np.random.RandomState(ctx.seed * 7919 + 1505), thorough)
     ctx.extra_cov["direct_draw_covariance_relative"] = dict(COVREL)
     check_retained(ctx)
 
@@ -616,7 +618,7 @@ def run_direct(ctx, cuqi, rs, thorough):
         c.mapx0_model = outs2[8 * i + 2: 8 * i + 6]
         c.ref = outs2[8 * i + 6]
         c.ref_code = outs2[8 * i + 7] if c.want_code_ref else c.ref
-        c.pending_draws = []
+        c.pending_draws = []; c.pending_chol = []
         direct_case(ctx, cuqi, c, rs, hist)
     pend = [p for c in cases for p in c.pending_draws]
     douts = ctx.lean.drive([p[2] for p in pend])
@@ -626,6 +628,31 @@ def run_direct(ctx, cuqi, rs, thorough):
         if pred is None or not vclose(xs, pred, 1e-9):
             ctx.disagree(key + ":affine", desc, out[:200], xs.tolist(), "draw is not centre + L xi")
             ctx.fail(key + ":affine", desc, "draw = centre + L xi for the scripted xi", xs.tolist(), "direct draw is not affine in the normal vector")
+    # ---- the Cholesky factor itself: numpy's L (read off the draws) vs the model's certified LDL^T form of the exact covariance
+    pch = [p for c in cases for p in c.pending_chol]
+    couts = ctx.lean.drive([p[2] for p in pch]) if pch else []
+    chist = {"compared": 0, "model_LinAlgError": 0, "max_rel": 0.0}
+    for (key, desc, line, Lnp, ccode), out in zip(pch, couts):
+        ctx.case("cholesky-factor", {"line": line[:300]})
+        if not out.startswith("lu="):
+            chist["model_LinAlgError"] += 1
+            ctx.disagree(key + ":cholesky", desc, out[:100], Lnp.tolist(), "model: the exact covariance has no certified LDL^T form, implementation factorised it")
+            mm_ = cov_mismatch(Lnp @ Lnp.T, ccode)
+            if mm_:
+                ctx.fail(key + ":cholesky", desc, "L L^T = covariance of the code's formula", (Lnp @ Lnp.T).tolist(), "factor of the direct sampler: " + mm_)
+            continue
+        lu_s, d_s = out.split(" ")
+        Lu = np.array([[float(v) for v in r] for r in pm(lu_s[3:])]); dd = np.array([float(v) for v in pv(d_s[2:])])
+        Lm = Lu * np.sqrt(dd)[None, :]
+        scl = float(np.abs(Lm).max(initial=0.0))
+        rel = float(np.abs(Lnp - Lm).max(initial=0.0)) / scl if scl > 0 else 0.0
+        chist["compared"] += 1; chist["max_rel"] = max(chist["max_rel"], rel)
+        if Lnp.shape != Lm.shape or rel > 1e-6:
+            ctx.disagree(key + ":cholesky", desc, "Lu*sqrt(d) = " + str(Lm.tolist())[:300], Lnp.tolist(), f"Cholesky factor of the direct sampler differs from the model's (relative {rel:.2e})")
+            mm_ = cov_mismatch(Lnp @ Lnp.T, ccode)     # the property only needs L L^T = C: another factor of the same C is a broken tie only
+            if mm_:
+                ctx.fail(key + ":cholesky", desc, "L L^T = covariance of the code's formula " + str(ccode.tolist())[:300], (Lnp @ Lnp.T).tolist(), "factor of the direct sampler: " + mm_)
+    ctx.extra_cov["cholesky_factor_tie"] = chist
     ctx.extra_cov["direct_histogram"] = hist
 
 
@@ -945,6 +972,7 @@ def sample_case(ctx, cuqi, c, BP, desc, rmean, rcov, rs, hist):
     # the covariance the code's own formula yields (stored matrix): tie
     if c.ref_code is not None and c.ref_code.startswith("mean="):
         ccode = np.array([[float(v) for v in r] for r in pm(c.ref_code.split(" ")[1][4:])])
+        c.pending_chol.append((key, desc, "chol " + c.ref_code.split(" ")[1][4:], L.copy(), ccode))
         mm_ = cov_mismatch(L @ L.T, ccode)
         if mm_:
             ctx.disagree(key, desc, str(ccode.tolist())[:200], (L @ L.T).tolist(), "L L^T vs inv(A^T inv(Ce) A + inv(Cx)) of the model: " + mm_)
